@@ -128,6 +128,20 @@ def memo_fields(ctx) -> Dict[Tuple[str, str], str]:
                          and isinstance(x.ops[0], (ast.Is, ast.IsNot)) and _self_attr(x.left, fi.self_name) == f
                          and isinstance(x.comparators[0], ast.Constant) and x.comparators[0].value is None]
                 if not tests:
+                    # the sentinel read into a local first (`cached = self.f` / `getattr(self, "f", None)`), or presence tested with hasattr
+                    from .astutil import single_defs
+                    sd = single_defs(fi.node, fi.params)
+                    for x in walk_local(fi.node):
+                        if isinstance(x, ast.Compare) and len(x.ops) == 1 and isinstance(x.ops[0], (ast.Is, ast.IsNot)) \
+                                and isinstance(x.left, ast.Name) and x.left.id in sd \
+                                and isinstance(x.comparators[0], ast.Constant) and x.comparators[0].value is None \
+                                and any(_self_attr(y, fi.self_name) == f for y in ast.walk(sd[x.left.id])):
+                            tests.append(x)
+                        elif isinstance(x, ast.Call) and isinstance(x.func, ast.Name) and x.func.id == "hasattr" and len(x.args) == 2 \
+                                and isinstance(x.args[0], ast.Name) and x.args[0].id == fi.self_name \
+                                and isinstance(x.args[1], ast.Constant) and x.args[1].value == f:
+                            tests.append(x)
+                if not tests:
                     # the attribute-absent style:  try: x = self.f  except AttributeError: ...; self.f = x
                     for tr in [x for x in walk_local(fi.node) if isinstance(x, ast.Try)]:
                         reads_f = any(_self_attr(y, fi.self_name) == f and isinstance(y.ctx, ast.Load) for b in tr.body for y in ast.walk(b))
